@@ -705,13 +705,26 @@ class Interp(Ops, Builtins, DynOps):
                 if gi + 1 < len(gens):
                     rec(gi + 1, frame)
                 elif what == "dict":
-                    self.dict_set_raw(out_k, out_v, self.ev(e.key, frame), self.ev(e.value, frame), e)
+                    # a contract may declare the values of a dict comprehension as SMT lists ("#dictvalue<line>": type): list displays are lifted
+                    c_ = self.contracts.get(fr.fi.fq) if fr.fi is not None else None
+                    vt = c_.locals.get(f"#dictvalue{e.lineno}") if c_ is not None else None
+                    val = self.lift_list_display(e.value, vt, frame) if vt is not None else self.ev(e.value, frame)
+                    self.dict_set_raw(out_k, out_v, self.ev(e.key, frame), val, e)
                 else:
                     out_v.append(self.ev(e.elt, frame))
         rec(0, cf)
         if what == "dict":
             return self.ctx.new_cell("dict", (out_k, out_v))
         return self.ctx.new_cell("list", out_v)
+
+    def lift_list_display(self, node, t, fr):
+        """[x, ...] (possibly nested) as an SMT list of the declared type"""
+        if isinstance(t, TSList) and isinstance(node, ast.List) and not any(isinstance(x, ast.Starred) for x in node.elts):
+            lst = self.new_slist(t.elem, "newlist")
+            for x in node.elts:
+                self.slist_append(lst, self.lift_list_display(x, t.elem, fr), node)
+            return lst
+        return self.ev(node, fr)
 
     def quantified_comp(self, comp, fr, is_any):
         """any([...]) / all([...]) over a comprehension whose generators range over data of unknown size: the quantified formula itself
@@ -1536,6 +1549,14 @@ class Interp(Ops, Builtins, DynOps):
         if k == "opaque":
             return self.ext_fresh_like(v, name, node)
         if k in ("func", "class", "module", "ext", "lambda"):
+            return v
+        if k == "ref" and v.rkind == "dict":
+            # a dict whose entries are updated in the loop (d[k] += x, d[k].append(y)): same keys, scalar values forgotten; SMT-list values keep their
+            # identity (their contents are havocked with the other lists allocated on this path)
+            keys, vals = ctx.cell(v)
+            for i, x in enumerate(vals):
+                if x.kind not in ("slist", "sobj"):
+                    vals[i] = self.fresh_like(x, f"{name}[{i}]", node)
             return v
         raise EngineError(f"cannot havoc {name} = {v} at a loop cut (line {getattr(node, 'lineno', '?')})")
 
